@@ -55,6 +55,17 @@ pub fn support() -> Vec<ProjFile> {
             Arg::new(Some("in"), leaf("Nope"), Some("f")),
         ],
     )));
+    // the mirror is a `oneway interface` whose methods carry codes and out arguments: whatever
+    // a pass remembers from this file (oneway-ness, codes, names, directions) must not reach the
+    // observed file when the mirror happens to be processed first
+    mirror.oneway = true;
+    let mut m2 = Method::new(Ty::prim("int"), "m", vec![Arg::new(Some("out"), Ty::array(Ty::prim("int")), Some("a"))]);
+    m2.code = Some("1".into());
+    mirror.members.push(Member::Method(m2));
+    let mut m3 = Method::new(Ty::void(), "f0", vec![]);
+    m3.code = Some("1".into());
+    m3.oneway = true;
+    mirror.members.push(Member::Method(m3));
     let mut md = Document::new("z", mirror);
     for i in ["z.Itf", "z.Par", "z.En", "z.Fw", "z.Nope"] {
         md.imports.push(Import::new(i));
